@@ -403,10 +403,71 @@ def run_subset(case, agg):
              f"{case['soc']} roles {roles} base 0x{case['base']:X}", sample=case if case["mask"] == 2 ** 11 - 1 and case["base"] == 0xFFF0 else None)
 
 
+# -- the real CLI ---------------------------------------------------------------------------------------------
+
+def cli_cases(tier):
+    return [{"addr": a, "cfg": c, "roles": r} for a in (None, "0", "4096", "0x0E1ED000", "0XFFF0") for c in (False, True)
+            for r in (["APP_LOCAL_1"], ["RAD_LOCAL_1", "APP_ROOT", "SEC_TOP"])]
+
+
+def run_cli(case, agg):
+    base = int(case["addr"], 0) if case["addr"] is not None else 0x0E1ED000        # documented default
+    cfg = "kconfig" if case["cfg"] else "defaults"
+    with fresh_dir("c07cli") as d:
+        outd = os.path.join(d, "out")
+        os.makedirs(outd)
+        args = ["image", "boot", "--storage-output-directory", outd]
+        if case["addr"] is not None:
+            args += ["--storage-address", case["addr"]]
+        if case["cfg"]:
+            kc = os.path.join(d, "k.config")
+            write_kconfig(kc)
+            args += ["--config-file", kc]
+        model = {}
+        for i, r in enumerate(case["roles"]):
+            b, exp, role = make_envelope({"role": r}, "nrf54h20", cfg, d)
+            p = os.path.join(d, f"e{i}.suit")
+            open(p, "wb").write(b)
+            args += ["--input-file", p]
+            model[r] = b
+        rc, so, se = impl.cli(args, d)
+        if rc != 0:
+            agg.viol("C07:cli/failed", f"{case}: rc={rc} {se[-300:]}")
+            return
+        problems = []
+        for dom in DOMAINS:
+            f = os.path.join(outd, f"suit_installed_envelopes_{dom}_merged.hex")
+            roles = [r for r in model if LAYOUT["nrf54h20"][r][2] == dom]
+            if not roles:
+                if os.path.exists(f):
+                    problems.append(f"unexpected file for domain {dom}")
+                continue
+            if not os.path.exists(f):
+                problems.append(f"no file for domain {dom}")
+                continue
+            mem = refhex.read_hex_file(f)
+            want = set()
+            for r in roles:
+                off, size, _ = LAYOUT["nrf54h20"][r]
+                rng = range(base + off, base + off + size)
+                want |= set(rng)
+                if all(a in mem for a in rng):
+                    pr = check_slot(bytes(mem[a] for a in rng), model[r], r)
+                    if pr:
+                        problems.append(pr[1])
+            if set(mem) != want:
+                problems.append(f"{dom}: data at {[hex(a) for a, _ in refhex.regions(mem)][:3]}, expected slots at base 0x{base:X}")
+    if problems:
+        agg.viol("C07:cli/placement", f"{case}: " + "; ".join(problems[:3]))
+    else:
+        agg.ok(h8("c07cli", case), "ok:cli", sample=case if case["addr"] == "4096" and case["cfg"] else None)
+
+
 def plan(tier):
     return [
         BfsStage("sequences", seq_init, seq_step, max_depth=2 if tier == "quick" else 3,
                  rule="add-envelope sequences over 15 letters x 2 SoCs x {build configuration, defaults}"),
         CaseStage("variants", lambda: variant_cases(tier), run_variant, disjoint=True, rule="role x signed x rich x component-ID position x size x SoC"),
         CaseStage("subsets", lambda: subset_cases(tier), run_subset, disjoint=True, rule="role subsets x SoC x storage base address"),
+        CaseStage("cli", lambda: cli_cases(tier), run_cli, rule="real CLI: --storage-address {default, decimal, hex} x --config-file x 1/3 --input-file"),
     ]
